@@ -440,6 +440,15 @@ fn lib(key: &str, rust: &str, wire: Ty) -> Ty {
         key: key.into(),
         rust: rust.into(),
         wire: Box::new(wire),
+        opaque: false,
+    })
+}
+fn opaque_lib(key: &str, rust: &str, val_shape: Ty) -> Ty {
+    Ty::Lib(LibTy {
+        key: key.into(),
+        rust: rust.into(),
+        wire: Box::new(val_shape),
+        opaque: true,
     })
 }
 
@@ -525,6 +534,15 @@ pub fn f_lib(_thorough: bool) -> Vec<Ty> {
     );
     out.push(lib("SocketAddr", "std::net::SocketAddr", sock_wire));
     out.push(Ty::Seq(Vec, b(lib("Duration", "std::time::Duration", p(U128)))));
+    // nalgebra (documented as their coordinates one after the other)
+    out.push(lib("Point3f32", "vglue::nalgebra::Point3<f32>", Ty::Tuple(vec![p(F32), p(F32), p(F32)])));
+    out.push(lib("Vector3f64", "vglue::nalgebra::Vector3<f64>", Ty::Tuple(vec![p(F64), p(F64), p(F64)])));
+    out.push(Ty::Seq(Vec, b(lib("Point3f32", "vglue::nalgebra::Point3<f32>", Ty::Tuple(vec![p(F32), p(F32), p(F32)])))));
+    // library types whose wire format is not modelled (value shape only)
+    out.push(opaque_lib("BitVec", "vglue::bit_vec::BitVec", Ty::Seq(Vec, b(p(Bool)))));
+    out.push(opaque_lib("BitVec08", "vglue::bit_vec08::BitVec", Ty::Seq(Vec, b(p(Bool)))));
+    out.push(opaque_lib("BitSet", "vglue::bit_set::BitSet", Ty::Seq(Vec, b(p(U32)))));
+    out.push(opaque_lib("BitSet08", "vglue::bit_set08::BitSet", Ty::Seq(Vec, b(p(U32)))));
     // atomics
     for (k, r, w) in [
         ("AtomicBool", "std::sync::atomic::AtomicBool", Bool),
